@@ -31,6 +31,7 @@ type Thread struct {
 	PanicVal interface{}
 	PanicStk string
 	Env      bool // environment actor thread (harness side), not part of the system under test
+	StallUntil int64 // the thread is not scheduled before this instant (models slow execution)
 }
 
 // Policy decides scheduling choices that are not forced.
@@ -193,7 +194,7 @@ func Killed() bool {
 func (s *Sched) Enabled() []*Thread {
 	var out []*Thread
 	for _, t := range s.Threads {
-		if !t.Done && t.Pending != nil && t.Pending.Enabled() {
+		if !t.Done && t.Pending != nil && t.StallUntil <= s.Now && t.Pending.Enabled() {
 			out = append(out, t)
 		}
 	}
@@ -228,6 +229,13 @@ func (s *Sched) NextWake() (int64, bool) {
 		if tm.alive && tm.at > s.Now {
 			if !ok || tm.at < best {
 				best, ok = tm.at, true
+			}
+		}
+	}
+	for _, t := range s.Threads {
+		if !t.Done && t.StallUntil > s.Now {
+			if !ok || t.StallUntil < best {
+				best, ok = t.StallUntil, true
 			}
 		}
 	}
